@@ -1040,6 +1040,16 @@ def c05_cases(tier, seed):
         keys = list(typed) + ["Esc", rng.choice(["A", "a", "i", "I"])] + first + rng.choice([[], ["z"]]) + ["Esc"] + ["u"] * rng.randint(1, 3) + ["Enter"]
         cases.append(Case(keys, mode="vi", history=["ls -l", "old"], cands=["echo", "echoes", "é日xy"] if "Tab" in first else None,
                           timeout=0, prompt="> "))
+    # a word / line kill, then only cursor motions, then ONE character deleted at every small distance from where the kill was made
+    # (before it, after it), then undos: the single deletion is its own step, the killed text comes back where it was
+    combos = [(kill, k, mv, dl) for kill in ("M-d", "C-k", "C-w", "M-Backspace", "C-u") for k in range(0, 6)
+              for mv in ("Left", "Right") for dl in ("C-d", "Backspace")]
+    for i, (kill, k, mv, dl) in enumerate(combos):
+        if tier != "thorough" and i % 3 != seed % 3:
+            continue
+        ini = [("abcdef ", "ghi jkl"), ("ab cdefg", "hi jklmn"), ("xé日abc ", "défg hi")][i % 3]
+        keys = [kill] + [mv] * k + [dl] + ["C-_"] * (1 + i % 3) + ["Enter"]
+        cases.append(Case(keys, mode="emacs", initial=ini, timeout="none", prompt="> "))
     # a sub-loop (search / completion) that showed SHORTER texts and was aborted or accepted, then more undos than it made changes
     for i in range(max(8, n // 20)):
         typed = rng.choice(["abcdef", "long text", "日本語 text", "on a b c d"])
